@@ -8,7 +8,7 @@ cd "$(dirname "$0")/.."
 IDS=${@:-$(python3 -c "import json;print(' '.join(sorted(json.load(open('checks.json')))))")}
 for id in $IDS; do
   s=$(date +%s)
-  out=$(./check $id --tier $TIER 2>&1); rc=$?
+  out=$(timeout ${CHECK_TIMEOUT:-3600} ./check $id --tier $TIER 2>&1); rc=$?
   echo "$id rc=$rc $(( $(date +%s) - s ))s :: $(echo "$out" | grep -v '^PASS\|^loaded\|^  \.\.\.\|^    violation' | tail -4 | cut -c1-300 | tr '\n' '|')" | tee -a run_all_results.txt
 done
 echo DONE | tee -a run_all_results.txt
